@@ -519,8 +519,10 @@ func AbstractRespBare(e drv.Event) map[string]any {
 	if utf8.Valid(body) && len(body) < 300 {
 		raw = string(body)
 	}
+	// (the payload of a success answer is not looked at here - the JSON form is C05's business: a 200
+	// counts as the handler's value)
 	rec := map[string]any{"event": "Resp", "status": status, "ctype": class, "hookHdr": false, "raw": raw,
-		"asMsg": map[string]any{"ok": false, "val": ""}, "asCustom": map[string]any{"ok": false, "val": ""}}
+		"asMsg": map[string]any{"ok": status == 200, "val": map[bool]string{true: "RESP", false: ""}[status == 200]}, "asCustom": map[string]any{"ok": false, "val": ""}}
 	ve := &sebufhttp.ValidationError{}
 	if decodeAs(class, body, ve) {
 		names := []string{}
